@@ -4,7 +4,7 @@ CONSTANTS
   NetName = "robustirc.net"
   MaxN = 3
   Families = {"reg", "member", "mode", "talk", "oper", "services", "entry", "addr", "time"}
-  Prologues = {3, 5}
+  Prologues = {3, 7}
 INVARIANT NoFailure
 VIEW View
 CHECK_DEADLOCK FALSE
